@@ -56,7 +56,7 @@ float_re = re.compile(
         \.(\d+_)*\d+  # required fractional part
     )
     """,
-    re.IGNORECASE | re.VERBOSE,
+    re.ASCII | re.IGNORECASE | re.VERBOSE,
 )
 
 # internal the tokens and keep references to them
